@@ -526,6 +526,8 @@ pub const ERRCODES: &[(&str, u16, &str)] = &[
     ("M_USER_SUSPENDED", 403, "{}"),
     ("M_WEAK_PASSWORD", 400, "{}"),
     ("M_WRONG_ROOM_KEYS_VERSION", 403, r#"{"current_version": "42"}"#),
+    ("M_WRONG_ROOM_KEYS_VERSION", 403, "{}"),
+    ("M_WRONG_ROOM_KEYS_VERSION", 403, r#"{"current_version": "$s"}"#),
     ("ORG.EXAMPLE.CUSTOM", 418, r#"{"x": "$s", "n": 3, "o": {"k": [1, null]}}"#),
 ];
 
